@@ -185,7 +185,30 @@ func c15(c *core.Ctx) {
 			key := rk + ".QueryService"
 			ok := false
 			rets := core.Returns(q)
-			if len(rets) == 1 && len(rets[0].Results) == 2 {
+			// a return of (nil, nil) taken exactly when m[name] reported "absent" equals returning the zero entry's fields
+			var fieldRets []*ssa.Return
+			absentOK := true
+			for _, r := range rets {
+				if len(r.Results) == 2 && core.IsNilConst(r.Results[0]) && core.IsNilConst(r.Results[1]) {
+					if !core.GuardedBy(r, func(f core.Fact) bool {
+						if f.Op != token.ILLEGAL || !f.Neg {
+							return false
+						}
+						ex, isEx := f.X.(*ssa.Extract)
+						if !isEx || ex.Index != 1 {
+							return false
+						}
+						lk, isL := ex.Tuple.(*ssa.Lookup)
+						return isL && lk.X == ssa.Value(q.Params[0]) && lk.Index == ssa.Value(q.Params[1])
+					}) {
+						absentOK = false
+					}
+					continue
+				}
+				fieldRets = append(fieldRets, r)
+			}
+			rets = fieldRets
+			if absentOK && len(rets) == 1 && len(rets[0].Results) == 2 {
 				okBoth := true
 				names := map[string]bool{}
 				for _, res := range rets[0].Results {
